@@ -46,6 +46,7 @@ from typing import Optional, Dict, Hashable, Any, Iterable, Iterator, Set, List,
 from uuid import UUID
 
 from inscripta.biocantor.exc import (
+    InvalidAnnotationError,
     DuplicateFeatureError,
     LocationOverlapException,
     EmptyLocationException,
@@ -351,6 +352,8 @@ class VariantIntervalCollection(AbstractFeatureIntervalCollection):
         qualifiers: Optional[Dict[Hashable, List[QualifierValue]]] = None,
         parent_or_seq_chunk_parent: Optional[Parent] = None,
     ):
+        if not variant_intervals:
+            raise InvalidAnnotationError("VariantIntervalCollection must have at least one VariantInterval")
         self.variant_intervals = sorted(variant_intervals, key=lambda x: x.start)
         # validate the variant intervals for not being overlapping
         for i in range(len(self.variant_intervals) - 1):
